@@ -73,6 +73,19 @@ func main() {
 			if i == 7 || i == 16 {
 				c.Methods = hist.MethodPool
 				hist.GenVerbStory(r, &c.Case)
+			} else if i%5 == 4 {
+				// part of the pool committed one write at a time, then a transaction that adds, updates and removes a
+				// pattern others extend (and some of its extensions) - and is aborted, or committed and followed by a second
+				// one that is aborted: what was never committed leaves no trace in the routing
+				c.Methods = hist.MethodPool[:1]
+				hist.GenPartial(r, &c.Case, 3, 5)
+				c.Ops = append(c.Ops, hist.Op{Kind: "begin"})
+				hist.GenProgram(r, &c.Case)
+				if r.IntN(3) == 0 {
+					c.Ops = append(c.Ops, hist.Op{Kind: "commit"}, hist.Op{Kind: "begin"})
+					hist.GenProgram(r, &c.Case)
+				}
+				c.Ops = append(c.Ops, hist.Op{Kind: "abort"})
 			} else if i%3 == 2 {
 				hist.GenStory(r, &c.Case)
 			} else {
